@@ -64,6 +64,11 @@ def job_lines(rng, n):
         if rng.random() < 0.25:
             out.append("; comment before %d" % i)
         tail = " ; note %d" % i if rng.random() < 0.3 else ""
+        if rng.random() < 0.15:
+            # commands whose argument is free text or a path (added after seed C15h: a line cut at its first '/' or '*')
+            out.append(rng.choice(["M117 Layer %d/%d", "M23 /models/part%d_%d.gco", "M117 %d*%d grid done", "M118 E1 step %d / %d"])
+                       % (i + 1, rng.randint(2, 9)) + tail)
+            continue
         out.append(rng.choice(["G1 X%d Y%d", "G0 Z%d.%d", "M104 S%d%d"]) % (i + 1, rng.randint(0, 9)) + tail)
     if rng.random() < 0.3:
         out.append(";end")
